@@ -27,3 +27,6 @@ Proof.
 Qed.
 Lemma zrange_In lo hi x : (lo <= x < hi)%Z -> In x (zrange lo hi).
 Proof. intros H. unfold zrange. apply zrange_aux_In. lia. Qed.
+
+Lemma filter_length_le {A} (f : A -> bool) (l : list A) : (length (filter f l) <= length l)%nat.
+Proof. induction l as [|x l IH]; cbn; [lia|]. destruct (f x); cbn; lia. Qed.
